@@ -77,7 +77,32 @@ impl Case<'_> {
         )
     }
     fn run(&self) -> Result<usize, String> {
-        set_breadcrumb(format!("case: {}\n", self.render()).as_bytes());
+        // rendering a multi-megabyte stream for every case is expensive: the hex text of the last
+        // large stream is kept
+        thread_local! {
+            static LAST_HEX: std::cell::RefCell<(usize, usize, u64, String)> = const { std::cell::RefCell::new((0, 0, 0, String::new())) };
+        }
+        if self.stream.len() > 4096 {
+            let key = (self.stream.as_ptr() as usize, self.stream.len(), hash_of(&self.stream[..64]));
+            LAST_HEX.with(|c| {
+                let mut c = c.borrow_mut();
+                if (c.0, c.1, c.2) != key {
+                    *c = (key.0, key.1, key.2, hex_full(self.stream));
+                }
+                let text = format!(
+                    "case: target={} block={} sched={} judge={} arena={:?} stream=[{}]\n",
+                    self.target,
+                    block_name(self.block),
+                    self.sched.render(),
+                    self.judge.map(|j| j.render()).unwrap_or("-".into()),
+                    self.arena,
+                    c.3
+                );
+                set_breadcrumb(text.as_bytes());
+            });
+        } else {
+            set_breadcrumb(format!("case: {}\n", self.render()).as_bytes());
+        }
         match self.target {
             "chunker" => chunker_run(self.stream, self.block.unwrap_or(hcobs::DEFAULT_BLOCK_SIZE), self.sched, self.arena),
             _ => reader_run(self.stream, self.block, self.sched, self.judge.unwrap_or(Judge::Std(usize::MAX, None))),
@@ -387,7 +412,7 @@ fn edges(ctx: &Ctx, rep: &mut Report, mode: Mode, unit: &mut usize) {
             let mut s = first.clone();
             s.extend_from_slice(&[0xFE, 0xFD]);
             s.extend_from_slice(&encode_record(b"second"));
-            one_stream(rep, &prop, mode, &s, &[Some(b)], 1, false, &ARENA_STATES[..1]);
+            one_stream(rep, &prop, mode, &s, &[Some(b)], 1, false, &[ArenaState::Fresh, ArenaState::FreshDropEach]);
             // the same with a torn first record (garbage of the same length)
             let mut t = first.clone();
             t[0] = 0xFF;
@@ -424,6 +449,26 @@ fn edges(ctx: &Ctx, rep: &mut Report, mode: Mode, unit: &mut usize) {
             streams += 1;
         }
     }
+    // (c) block sizes at the arena's largest size class (1 MiB) and one below it (a carried byte
+    // makes the refill ask for exactly 1 MiB): streams of ~2.2 MiB so that several refills happen
+    // after the arena reached its chunk-size cap
+    for block in [1usize << 20, (1 << 20) - 1, (1 << 20) + 1] {
+        for p in [(1usize << 20) - 2, (1 << 20) - 1, 1 << 20, 2 * (1 << 20) - 1] {
+            let u = *unit;
+            *unit += 1;
+            if !ctx.owns(u) {
+                continue;
+            }
+            let mut s: Vec<u8> = (0..p).map(|i| 0x30 + (i % 59) as u8).collect();
+            s.extend_from_slice(&[0xFE, 0xFD]);
+            s.extend((0..(1usize << 20) + 4096).map(|i| 0x41 + (i % 23) as u8));
+            s.extend_from_slice(&[0xFE, 0xFD]);
+            s.extend_from_slice(&encode_record(b"tail"));
+            one_stream(rep, &prop, mode, &s, &[Some(block)], 0, false, &ARENA_STATES[..1]);
+            streams += 1;
+        }
+    }
+    rep.note("family (iv)(c): ~2.2 MiB streams with FE FD around 1 MiB and 2 MiB under block sizes 1 MiB - 1, 1 MiB, 1 MiB + 1 (the arena's largest chunk size class; a carried byte makes the refill ask for exactly 1 MiB)".to_string());
     rep.count("edge_streams", streams);
     rep.note("family (iv): block sizes 4090..=4098 x first-record encodings of B-5..=B+2 bytes (valid, and torn) followed by a delimiter and a second record; FE FD at every position within 3 of 4096 / 8192 / 16384 / 32768 / 65536 / 131072 and at 64004..=64016 of a stuff-free filler (alone and after a short first chunk) with block sizes 65536, 70000 and the 512 KiB default; full reads and every single deviation".to_string());
 }
@@ -610,6 +655,7 @@ fn run(ctx: &Ctx) -> Report {
         }
         "C05" => {
             crash_histories(ctx, &mut rep, Mode::Both, &mut unit);
+            edges(ctx, &mut rep, Mode::Both, &mut unit);
         }
         "C10" => {
             crash_histories(ctx, &mut rep, Mode::Both, &mut unit);
